@@ -45,11 +45,13 @@ def handleRecord (op : String) (a : Json) (q : String → Bool) : Option Json :=
       | .ok m => Json.mkObj [("res", "ok"), ("arts", artMapJson m)]
       | .err e => Json.mkObj [("res", "err"), ("stage", e)]
       | .panic e => Json.mkObj [("res", "panic"), ("stage", e)])
-  | "matchproducts" =>
+  | "matchproducts" | "climatch" =>
     let toAM (j : Json) : ArtMap := ((objPairs j).getD []).map fun kv => (L kv.1, strMap kv.2)
     let r := matchProducts (toAM (fld a "products")) (toAM (fld a "local"))
     let srt (l : List Str) : Json := Json.arr ((sortBy (fun x y => InToto.Json.strLt x y) l).map fun s => Json.str (S s)).toArray
-    some (Json.mkObj [("only_products", srt r.1), ("not_in_products", srt r.2.1), ("differ", srt r.2.2)])
+    let base := [("only_products", srt r.1), ("not_in_products", srt r.2.1), ("differ", srt r.2.2)]
+    -- the command line tool exits non-zero exactly when one of the three lists is non-empty
+    some (Json.mkObj (if op == "climatch" then base ++ [("exit_nonzero", Json.bool (!(r.1.isEmpty && r.2.1.isEmpty && r.2.2.isEmpty)))] else base))
   -- before/after discipline: materials are the directory before, products the directory after the
   -- command (the expectation is computed by the harness from its own bookkeeping of the writes)
   | "snapshots" => some (fld a "expect")
